@@ -424,6 +424,19 @@ pub unsafe extern "C" fn verif_clear_case(export_calls: *mut u32) -> usize {
     }
 }
 
+// per-execution flags the host sets for user code (C08: bit 0 = the export body awaits the
+// `pause` import before it answers)
+static mut FLAGS: u32 = 0;
+
+#[no_mangle]
+pub unsafe extern "C" fn verif_set_flags(f: u32) {
+    unsafe { *(&raw mut FLAGS) = f };
+}
+
+pub fn flags() -> u32 {
+    unsafe { *(&raw const FLAGS) }
+}
+
 // ---------------------------------------------------------------------------------------------
 // import dispatch: all import shims funnel into one host callback
 
